@@ -38,7 +38,7 @@ QUICK_N = 16_000
 THOROUGH_N = 400_000
 
 REQ_STR = ("method", "scheme", "host", "path", "http_version")
-KINDS = ("http", "http-noresp", "http-backup", "http-ws", "http-trailers", "tcp", "dns", "http-backup2")
+KINDS = ("http", "http", "http-noresp", "http-backup", "http-backup", "http-ws", "http-trailers", "tcp", "dns", "http-backup2")
 
 # ------------------------------------------------------------------ strategies
 _SUR = "\ud800"
@@ -46,11 +46,11 @@ _valid_str = st.sampled_from(["GET", "POST", "https", "http", "example.com", "/p
                               "café", "bücher.example", "OK", "Not Found", "a" * 300])
 _odd_str = st.one_of(st.integers(-5, 70000), st.none(), st.booleans(), st.just([]), st.just({}), st.just(1.5))
 _bad_str = st.sampled_from([_SUR, "a" + _SUR + "b", "✓ done"])  # ✓ is invalid only for `reason` (latin-1)
-_str_val = st.one_of(_valid_str, _valid_str, _odd_str, _bad_str)
+_str_val = st.one_of(_valid_str, _valid_str, _valid_str, _odd_str, _odd_str, _bad_str)
 
 _num_ok = st.one_of(st.integers(0, 70000), st.sampled_from(["80", " 443 ", "0", True, 12.7, "٣"]))
 _num_bad = st.sampled_from(["x", "", "80a", None, [], {}, "1.5", "0x10", [80], "\ud800"])
-_num_val = st.one_of(_num_ok, _num_ok, _num_bad)
+_num_val = st.one_of(_num_ok, _num_ok, _num_ok, _num_ok, _num_bad)
 
 _hname = st.sampled_from(["a", "Host", "content-type", "content-length", "x-b", "content-encoding", "transfer-encoding", "é"])
 _hval = st.sampled_from(["1", "text/plain; charset=latin-1", "gzip", "identity", "v", "", "text/html; charset=utf-16", "é", "chunked"])
@@ -60,10 +60,10 @@ _hpair_bad = st.sampled_from([["a"], ["a", "b", "c"], [1, 2], [], None, 5, "a", 
 _hlist_ok = st.lists(_hpair_ok, max_size=4)
 _hlist_mixed = st.lists(st.one_of(_hpair_ok, _hpair_ok, _hpair_bad), min_size=1, max_size=4)
 _hlist_bad = st.sampled_from([5, None, "notalist", {"a": "b"}, True, 1.5])
-_hdr_val = st.one_of(_hlist_ok, _hlist_ok, _hlist_mixed, _hlist_bad)
+_hdr_val = st.one_of(_hlist_ok, _hlist_ok, _hlist_ok, _hlist_ok, _hlist_ok, _hlist_mixed, _hlist_bad)
 
-_content_val = st.one_of(st.sampled_from(["", "hello", "café ✓", "line1\nline2", None, "x" * 2000]),
-                         st.sampled_from([5, [], {}, True, _SUR, ["a"]]))
+_content_ok = st.sampled_from(["", "hello", "café ✓", "line1\nline2", None, "x" * 2000])
+_content_val = st.one_of(_content_ok, _content_ok, _content_ok, _content_ok, st.sampled_from([5, [], {}, True, _SUR, ["a"]]))
 _marked_val = st.sampled_from(["", ":red_circle:", ":grapes:", "x", True, False, None, 5, []])
 _comment_val = st.sampled_from(["", "note", "café", _SUR, None, 7, []])
 _junk = st.sampled_from([1, "x", None, [], {}, {"a": 1}])
@@ -73,6 +73,8 @@ def _entry(section):
     if section == "request":
         return st.one_of(
             st.tuples(st.just("request"), st.sampled_from(REQ_STR), _str_val),
+            st.tuples(st.just("request"), st.sampled_from(REQ_STR), _str_val),
+            st.tuples(st.just("request"), st.just("port"), _num_val),
             st.tuples(st.just("request"), st.just("port"), _num_val),
             st.tuples(st.just("request"), st.sampled_from(["headers", "trailers"]), _hdr_val),
             st.tuples(st.just("request"), st.just("content"), _content_val),
@@ -81,6 +83,8 @@ def _entry(section):
     if section == "response":
         return st.one_of(
             st.tuples(st.just("response"), st.sampled_from(["reason", "http_version"]), _str_val),
+            st.tuples(st.just("response"), st.sampled_from(["reason", "http_version"]), _str_val),
+            st.tuples(st.just("response"), st.just("code"), _num_val),
             st.tuples(st.just("response"), st.just("code"), _num_val),
             st.tuples(st.just("response"), st.sampled_from(["headers", "trailers"]), _hdr_val),
             st.tuples(st.just("response"), st.just("content"), _content_val),
@@ -88,6 +92,9 @@ def _entry(section):
         )
     return st.one_of(
         st.tuples(st.just("top"), st.just("marked"), _marked_val),
+        st.tuples(st.just("top"), st.just("comment"), _comment_val),
+        st.tuples(st.just("top"), st.just("marked"), _marked_val),
+        st.tuples(st.just("top"), st.just("comment"), _comment_val),
         st.tuples(st.just("top"), st.just("comment"), _comment_val),
         st.tuples(st.just("top"), st.sampled_from(["foo", "id", "Request", "", "intercepted", "websocket"]), _junk),
         # a whole section that is not an object
@@ -102,7 +109,7 @@ def strategy(ctx):
     return st.fixed_dictionaries({
         "kind": st.sampled_from(KINDS),
         "entries": _entries,
-        "form": st.sampled_from(["json"] * 12 + ["no-ctype", "malformed", "not-object"]),
+        "form": st.sampled_from(["json"] * 24 + ["no-ctype", "malformed", "not-object"]),
     })
 
 
